@@ -336,6 +336,29 @@ def runStream (trk : Tracker) (me : Bytes) (evs : List Ev) (cut : Bytes → List
   let rr := readLoop trk (wire.length + 1) r0 ps
   ⟨w.1, rr.1, rr.2.broken, w.2.broken⟩
 
+/-! ### Both directions of one connection (request / response) -/
+
+/-- Forward phase as in `runStream`, then the reverse phase on the SAME two stream objects. -/
+structure DxObs where
+  fwd : StObs
+  rev : StObs      -- writes: B's `Write` answers; reads: A's `Read` results; rbroken: A; wbroken: B
+deriving DecidableEq, Repr
+
+/-- A (tunnel `me`) runs the sender events `evs`; B (tracker `trk`; if `rw` it half-closes first, which
+puts an EOF frame on the way back to A) reads with `ps`; then B runs `rvEvs` on its stream (and the raw
+connection), the connection's B→A direction ends, and A reads with `rps`. -/
+def runDuplex (trk : Tracker) (me : Bytes) (evs : List Ev) (cut : Bytes → List Bytes) (tail : Tail) (rw : Bool)
+    (ps : List Nat) (rvEvs : List Ev) (rps : List Nat) : DxObs :=
+  let id := tunnelIDFromString me
+  let a := runWriter (FS.init id ⟨[], .eof⟩) evs
+  let b0 := FS.init id ⟨cut a.2.out, tail⟩
+  let b1 := if rw then b0.closeWrite else b0
+  let br := readLoop trk (a.2.out.length + 1) b1 ps
+  let bw := runWriter br.2 rvEvs
+  let a1 : FS := { a.2 with conn := ⟨cut bw.2.out, .eof⟩ }
+  let ar := readLoop none (bw.2.out.length + 1) a1 rps
+  ⟨⟨a.1, br.1, br.2.broken, a.2.broken⟩, ⟨bw.1, ar.1, ar.2.broken, bw.2.broken⟩⟩
+
 /-! ### A stream on a pooled connection (`NodeConnectionPool.Get` after `Release`) -/
 
 /-- `Conn.IsHealthy` as the pool applies it to an idle connection; `arrived` = inbound bytes already
